@@ -18,11 +18,11 @@ inductive Expl (env : Env) (ref l10n : List PEnt) : Ev → Prop
   | dup (cat : ObsM.Cat) (k : Cmp.Key) (n : Nat) (hc : cat = .warning ∨ cat = .error) :
       Expl env ref l10n (.notify cat env.file (.str (dupMsg k n)))
   | refJunk : Expl env ref l10n (.notify .warning env.file (.str Gen.Tables.cmpRefJunkMsg))
-  | junk (j : PEnt) (hj : j ∈ l10n) (hjj : j.junk = true) (t : Text) (ht : junkMessage env.l10nText j = .ok t) :
+  | junk (j : PEnt) (hj : j ∈ l10n) (hjj : j.junk = true) (t : Text) (ht : junkMessage env.l10nText env.cls j = .ok t) :
       Expl env ref l10n (.notify .error env.file (.str t))
   | check (r : PEnt) (hr : r ∈ ref) (l : PEnt) (hl : l ∈ l10n) (rs : List CheckRes)
-      (hrs : runChecker env.ck env.file.locale r l = .ok rs) (c : CheckRes) (hc : c ∈ rs) (lc : Int × Int)
-      (hlc : resolveCheckPos env.l10nText .plain l.entry c.pos = some lc) :
+      (hrs : runChecker env.ck r l = .ok rs) (c : CheckRes) (hc : c ∈ rs) (lc : Int × Int)
+      (hlc : resolvePos env.l10nText env.cls l c.pos = some lc) :
       Expl env ref l10n (.notify (sevCat c.sev) env.file (.str (checkMsg c.msg lc.1 lc.2 r.key)))
 
 /-- the observers are what a history of explained events produces -/
@@ -57,7 +57,7 @@ theorem foldE_ok_inv {α σ : Type} {f : σ → α → Except PyErr σ} (I : σ 
 
 theorem checkLoop_inv {obs0 : ObsList} (hf : Fresh obs0) {env : Env} (hm : ObsM.Modelled env.file) {ref l10n : List PEnt}
     (r l : PEnt) (hr : r ∈ ref) (hl : l ∈ l10n) (rs : List CheckRes)
-    (hrs : runChecker env.ck env.file.locale r l = .ok rs) :
+    (hrs : runChecker env.ck r l = .ok rs) :
     ∀ (results : List CheckRes), (∀ c ∈ results, c ∈ rs) → ∀ (obs obs' : ObsList) (skips skips' : List PEnt),
       Inv obs0 env ref l10n obs → checkLoop env r l results (obs, skips) = .ok (obs', skips') →
       Inv obs0 env ref l10n obs' := by
@@ -201,8 +201,9 @@ inductive DetailWhy (s : Array Nat) (l10n : List PEnt) (t : Text) : Prop
       (h : t = checkMsg msg lc.1 lc.2 key)
 
 theorem junkMessage_text (s : Array Nat) (j : PEnt) (hv : j.val = P.slice s j.entry.s j.entry.e) (t : Text)
-    (h : junkMessage s j = .ok t) : t = junkText s j.entry.s j.entry.e := by
+    (h : junkMessage s .plain j = .ok t) : t = junkText s j.entry.s j.entry.e := by
   unfold junkMessage junkMessagePositions at h
+  simp only at h
   have h0 : position s j.entry 0 = some (castLC (cursor s j.entry.s)) := by
     unfold position; simpa using linecol_nat s j.entry.s
   have h1 : position s j.entry (-1) = some (castLC (cursor s j.entry.e)) := by
@@ -213,18 +214,16 @@ theorem junkMessage_text (s : Array Nat) (j : PEnt) (hv : j.val = P.slice s j.en
   rfl
 
 /-- **every error / warning item of the report is explained** (ini, inc, po, properties; any file the observers can
-    address, any list of fresh observers with filters, with or without merge staging) -/
-theorem compareFiles_details_explained (fmt : P.Fmt) (ck : CheckerKind) (hck : checkerOf fmt = some ck)
+    address, any list of fresh observers with filters, with or without merge staging; whatever the external functions
+    `ext` are) -/
+theorem compareFiles_details_explained (ext : Ext) (fmt : P.Fmt) (hf : fmt ≠ .dtd)
     (file : ObsM.File) (hm : ObsM.Modelled file) (q : Nat) (flts : List (Option ObsM.Filter))
     (refText l10nText : Array Nat) (mergeOn : Bool) (r : Report)
-    (h : compareFiles fmt file (ObsList.init q (flts.map (Obs.init q))) refText l10nText mergeOn = .ok r) :
-    ∃ l10n n0 n1, parseFile fmt l10nText n0 = .ok (l10n, n1) ∧ (∀ pe ∈ l10n, EntFacts fmt l10nText pe) ∧
+    (h : compareFiles ext fmt file (ObsList.init q (flts.map (Obs.init q))) refText l10nText mergeOn = .ok r) :
+    ∃ l10n n0 n1, parseFile ext fmt l10nText n0 = .ok (l10n, n1) ∧ (∀ pe ∈ l10n, EntFacts fmt l10nText pe) ∧
       ∀ leaf ∈ r.details, ∀ d ∈ leaf.2, (d.1 = .error ∨ d.1 = .warning) →
         ∃ t, d.2 = .data (.str t) ∧ DetailWhy l10nText l10n t := by
-  have hf : fmt ≠ .dtd := by intro hh; subst hh; simp [checkerOf] at hck
   unfold compareFiles at h
-  rw [hck] at h
-  simp only at h
   split at h
   · cases h
   · rename_i ref n1 hp1
@@ -235,10 +234,11 @@ theorem compareFiles_details_explained (fmt : P.Fmt) (ck : CheckerKind) (hck : c
       · cases h
       · rename_i obs outcome hcmp
         cases h
-        have hfacts := parseFile_facts fmt hf l10nText n1 l10n n2 hp2
+        have hfacts := parseFile_facts ext fmt hf l10nText n1 l10n n2 hp2
         refine ⟨l10n, n1, n2, hp2, hfacts, ?_⟩
+        have hcl : (envOf ext fmt file mergeOn ref l10nText).cls = .plain := clsOf_plain hf
         obtain ⟨evs, stats, hreach, hall⟩ := compareParsed_inv (fresh_init q flts)
-          { fmt := fmt, ck := ck, file := file, mergeOn := mergeOn, l10nText := l10nText } hm ref l10n obs outcome hcmp
+          (envOf ext fmt file mergeOn ref l10nText) hm ref l10n obs outcome hcmp
         intro leaf hleaf d hd hcat
         obtain ⟨cat, f, data, rv, hev, rfl⟩ :=
           report_details_from_history q flts file hm _ obs hreach outcome leaf hleaf d hd
@@ -255,13 +255,16 @@ theorem compareFiles_details_explained (fmt : P.Fmt) (ck : CheckerKind) (hck : c
             exact ⟨_, by simp [ObsM.detailOf, hnf'], .dup k n rfl⟩
           | refJunk => exact ⟨_, by simp [ObsM.detailOf, ObsM.Cat.isFile], .refJunk rfl⟩
           | junk j hj hjj t ht =>
+            rw [hcl] at ht
             exact ⟨t, by simp [ObsM.detailOf, ObsM.Cat.isFile],
               .junk j hj hjj (junkMessage_text l10nText j ((hfacts j hj).junk_val hjj) t ht)⟩
           | check rr hr l hl rs hrs c hc lc hlc =>
             have hnf' : (sevCat c.sev).isFile = false := by cases c.sev <;> rfl
+            rw [hcl] at hlc
             exact ⟨_, by simp [ObsM.detailOf, hnf'],
               .check l hl c.msg rr.key lc
-                (resolve_target fmt ck hck l10nText _ rr l (hfacts l hl) rs hrs c hc lc hlc).1 rfl⟩
+                (resolve_target fmt hf (envOf ext fmt file mergeOn ref l10nText).ck rfl l10nText rr l (hfacts l hl) rs hrs c hc
+                  lc hlc).1 rfl⟩
         · cases hev
 
 end C17P
